@@ -95,7 +95,59 @@ def c20(run):
         "capacity: seeded add/remove histories around MaxFacts=3 (facts, rules, property facts), StateSize after adds; "
         "TLC checks refusal exactly at capacity and no side effect of a refused add")
 
-CHECKS = {"C01": c01, "C02": c02, "C07": c07, "C08": c08, "C09": c09, "C10": c10, "C19": c19, "C20": c20}
+def c05(run):
+    q = run.tier == "quick"
+    run.model_check("MatchMC.tla", "MC_match.cfg" if q else "MCT_match.cfg")
+    drv = run.build("matchdrv")
+    out = os.path.join(run.tmp, "match.ndjson")
+    run.run_bin(drv, ["-seed", str(run.seed), "-stride", "7" if q else "1", "-random", "3000" if q else "40000", "-out", out])
+    rejected, _ = run.validate("MatchTrace.tla", "MatchTrace.cfg", out, "match")
+    with open(out) as f:
+        lines = f.read().split("\n")
+    for ln in rejected:
+        e = json.loads(lines[ln - 1])
+        run.violation("match via %s p=%s d=%s b0=%s -> %s err=%s mut=%s" % (
+            e["via"], json.dumps(dec(e["p"])), json.dumps(dec(e["d"])), json.dumps({k: dec(v) for k, v in e["b0"].items()}),
+            json.dumps([{k: dec(v) for k, v in b.items()} for b in e["res"]]), e["err"], e["mut"]),
+            {"header": json.loads(lines[0]), "event": e}, stage="match")
+    for ln in (2, 3, len(lines) // 2):
+        e = json.loads(lines[ln - 1])
+        run.sample({"via": e["via"], "pattern": dec(e["p"]), "data": dec(e["d"]), "b0": {k: dec(v) for k, v in e["b0"].items()},
+                    "result": [{k: dec(v) for k, v in b.items()} for b in e["res"]]})
+    run.assumptions += TRUSTED[:2] + ["fragment: maps over keys a,b(,c,d) nested to depth 3, arrays of distinct scalars with at most one "
+                        "variable, arrays of up to two maps, every JSON scalar type, variables ?x ?y (repeated), one initial binding; "
+                        "?-strings inside data and ??optional / ?<inequality variables are outside the fragment"]
+    return run.finish(rule="exhaustive universe of 324 patterns x 144 data maps (every stride-th pair in the quick tier) through "
+                           "core.Matches, plus core.Match with an initial binding and Go-typed inputs on a third of them, plus seeded "
+                           "random deeper cases; TLC compares the returned binding SET with Match!MatchB and checks inputs unmodified; "
+                           "states/transitions: MatchMC (fold = declarative definition on every pair of the model universe)")
+
+def c03(run):
+    q = run.tier == "quick"
+    run.model_check("QueryMC.tla", "MC_query.cfg" if q else "MCT_query.cfg", timeout=3000)
+    drv = run.build("querydrv")
+    out = os.path.join(run.tmp, "query.ndjson")
+    run.run_bin(drv, ["-seed", str(run.seed), "-n", "4000" if q else "60000", "-out", out])
+    rejected, _ = run.validate("QueryTrace.tla", "QueryTrace.cfg", out, "query", timeout=3000)
+    with open(out) as f:
+        lines = f.read().split("\n")
+    for ln in rejected:
+        e = json.loads(lines[ln - 1])
+        run.violation("query %s on %s state, %d facts -> %s%s" % (e["json"], e["state"], len(e["facts"]),
+                      json.dumps([{k: dec(v) for k, v in b.items()} for b in e["res"]])[:300], " ERR " + e["msg"] if e["err"] else ""),
+                      {"header": json.loads(lines[0]), "event": e}, stage="query")
+    for ln in (2, 5, 9):
+        e = json.loads(lines[ln - 1])
+        run.sample({"state": e["state"], "query": e["json"], "facts": [[f["loc"], f["id"], dec(f["body"])] for f in e["facts"]],
+                    "result": [{k: dec(v) for k, v in b.items()} for b in e["res"]], "error": e["err"]})
+    run.assumptions += TRUSTED[:2] + ["code terms come from a fixed family of nine scripts whose meaning Query!CodeOn states",
+                                      "patterns keep to shapes where distinct embeddings give distinct bindings (no arrays of maps)"]
+    return run.finish(rule="seeded random query trees (depth<=4, arity 0..3, and/or(+shortCircuit)/not/pattern/code/empty, shared and "
+                           "fresh variables ?x ?y ?w) over random fact sets (0-4 own facts, optionally 0-3 facts of a parent), alternating "
+                           "indexed and linear state, through Location.Query; TLC compares the returned bindings as a BAG with Query!Eval; "
+                           "states/transitions: QueryMC (algebraic laws of Eval on all trees up to depth 1/2 x all fact subsets)")
+
+CHECKS = {"C01": c01, "C03": c03, "C05": c05, "C02": c02, "C07": c07, "C08": c08, "C09": c09, "C10": c10, "C19": c19, "C20": c20}
 
 def replay(run, path):
     rejected, out = run.validate("EngineTrace.tla", "EngineTrace.cfg", path, "replay")
